@@ -129,7 +129,7 @@ func (g *gen) filePart(pInvalid int) *Part {
 	p.P, p.Set, p.NestX, p.EmbA, p.EmbS, p.Iface, p.BadIface, p.Share = nil, nil, nil, nil, nil, nil, false, false
 	p.SM, p.MM, p.MA, p.Pairs = nil, nil, nil, nil
 	p.Arr, p.When, p.Peers, p.PM = nil, nil, nil, nil
-	p.PWhen, p.TU = nil, nil
+	p.PWhen, p.TU, p.Held = nil, nil, nil
 	if p.NestS == nil && p.NestN == nil {
 		p.NestS = nil
 	}
@@ -155,6 +155,12 @@ func genFile(seed uint64, faulty bool) *Scenario {
 	fs := &FileSpec{Layout: "plain"}
 	if g.pct(45) {
 		fs.Layout = "k8s"
+		if g.pct(30) {
+			// what the Kubernetes AtomicWriter really does: the intermediate
+			// symlink is called ..data and the old timestamped directory is
+			// always removed after the swap
+			fs.Layout = "k8sdata"
+		}
 	} else if g.pct(35) {
 		// the path is (or becomes) a symlink that is re-pointed at files with
 		// other names, in its own directory or in others
@@ -236,7 +242,7 @@ func genFile(seed uint64, faulty bool) *Scenario {
 			w.Ops = append(w.Ops, Op{K: "quiesce", D: int64(g.in(1, 20)) * 60e9})
 		}
 	}
-	if fs.Layout == "k8s" && g.pct(45) {
+	if strings.HasPrefix(fs.Layout, "k8s") && g.pct(45) {
 		// end with a swap immediately followed by a short rewrite through the path
 		sw := Op{K: "k8s-swap", Part: g.filePart(pInvalid), N: g.in(0, 2) / 2}
 		if g.pct(35) {
@@ -326,7 +332,7 @@ func (g *gen) writerOp(fs *FileSpec, pInvalid int) Op {
 		op.K, op.N = "link-swap", g.in(0, 2) // 0: a sibling with another name; 1, 2: a file in another directory
 		return op
 	}
-	if fs.Layout == "k8s" {
+	if strings.HasPrefix(fs.Layout, "k8s") {
 		switch g.r.IntN(8) {
 		case 0:
 			return Op{K: "touch"}
@@ -405,12 +411,12 @@ func (r *Run) setupFile(st *srcState) {
 		} else {
 			must(os.WriteFile(f.path, content, 0644))
 		}
-	case "k8s":
+	case "k8s", "k8sdata":
 		f.tsN = 1
 		ts := "..ts-1."
 		must(os.Mkdir(filepath.Join(f.dir, ts), 0755))
-		must(os.Symlink(ts, filepath.Join(f.dir, "..dir")))
-		must(os.Symlink(filepath.Join("..dir", "cfg.json"), f.path))
+		must(os.Symlink(ts, filepath.Join(f.dir, f.linkName())))
+		must(os.Symlink(filepath.Join(f.linkName(), "cfg.json"), f.path))
 		must(os.WriteFile(filepath.Join(f.dir, ts, "cfg.json"), content, 0644))
 	default:
 		must(os.WriteFile(f.path, content, 0644))
@@ -433,6 +439,14 @@ func must(err error) {
 	if err != nil {
 		panic(err)
 	}
+}
+
+// linkName: the intermediate directory symlink of the Kubernetes layouts.
+func (f *fileState) linkName() string {
+	if f.spec.Layout == "k8sdata" {
+		return "..data"
+	}
+	return "..dir"
 }
 
 func (r *Run) cleanupFile() {
@@ -611,14 +625,14 @@ func (r *Run) writer(c *ClientSpec) {
 			ts := fmt.Sprintf("..ts-%d.", f.tsN)
 			os.Mkdir(filepath.Join(f.dir, ts), 0755)
 			simrt.Yield("w.k8s-mkdir")
-			os.Symlink(ts, filepath.Join(f.dir, "..dir_tmp"))
+			os.Symlink(ts, filepath.Join(f.dir, f.linkName()+"_tmp"))
 			simrt.Yield("w.k8s-symlink")
 			os.WriteFile(filepath.Join(f.dir, ts, "cfg.json"), content, 0644)
 			simrt.Yield("w.k8s-written")
-			os.Rename(filepath.Join(f.dir, "..dir_tmp"), filepath.Join(f.dir, "..dir"))
+			os.Rename(filepath.Join(f.dir, f.linkName()+"_tmp"), filepath.Join(f.dir, f.linkName()))
 			changed()
 			simrt.Yield("w.k8s-swapped")
-			if op.N == 1 {
+			if op.N == 1 || f.spec.Layout == "k8sdata" {
 				os.RemoveAll(filepath.Join(f.dir, old))
 				simrt.Yield("w.k8s-old-removed")
 			}
